@@ -39,6 +39,7 @@ type c10Case struct {
 	Interceptor bool
 	Cancel      bool // cancel the outermost caller while the innermost handler is running
 	Mutate      bool // handlers mutate the metadata they see; callers mutate theirs after the call
+	MutCaller   bool // streaming callers modify the very map they attached, after the call has started and before the handler looks
 }
 
 type c10StrKey string
@@ -104,6 +105,8 @@ func propC10(c c10Case) *Outcome {
 	}
 	// callerCtx[i] = the context with which call i was made; set before the call
 	callerCtx := make([]context.Context, len(c.Levels))
+	// sentMD[i] = copy of the outgoing metadata of call i as it was when the call was made
+	sentMD := make([]metadata.MD, len(c.Levels))
 	var deadline time.Time
 	var makeCall func(level int, base context.Context) error
 
@@ -138,7 +141,7 @@ func propC10(c c10Case) *Outcome {
 			}
 		}
 		// (3) incoming metadata = the caller's outgoing metadata, nothing else
-		want, hasWant := metadata.FromOutgoingContext(cctx)
+		want, hasWant := sentMD[level], sentMD[level] != nil
 		got, hasGot := metadata.FromIncomingContext(ctx)
 		if !hasWant || len(want) == 0 {
 			if hasGot && len(got) > 0 {
@@ -183,7 +186,14 @@ func propC10(c c10Case) *Outcome {
 				}
 			}
 			if again, _ := metadata.FromOutgoingContext(cctx); again != nil {
-				if ok, why := mdContains(again, want); !ok || len(again["zz-injected"]) != 0 {
+				// (with MutCaller the caller itself has changed its map; only the handler's marks matter then)
+				hv := false
+				for _, vs := range again {
+					for _, v := range vs {
+						hv = hv || v == "overwritten-by-handler"
+					}
+				}
+				if ok, why := mdContains(again, want); (!ok && !c.MutCaller) || hv || len(again["zz-injected"]) != 0 {
 					p.fault("level %d: handler's metadata mutation is visible in the caller's outgoing metadata: %s %v", level, why, again["zz-injected"])
 				}
 			}
@@ -228,8 +238,13 @@ func propC10(c c10Case) *Outcome {
 		for _, v := range l.Vals {
 			ctx = context.WithValue(ctx, v.key(), v.Val)
 		}
+		var attached metadata.MD
 		if !l.NoMD && l.OutMD != nil {
-			ctx = metadata.NewOutgoingContext(ctx, l.OutMD.MD())
+			attached = l.OutMD.MD()
+			ctx = metadata.NewOutgoingContext(ctx, attached)
+			sentMD[level] = attached.Copy()
+		} else {
+			sentMD[level] = nil
 		}
 		// NoMD: nothing is attached at all. (A handler's context never carries outgoing
 		// metadata of an enclosing caller: the value-blocking wrapper hides it.)
@@ -242,6 +257,15 @@ func propC10(c c10Case) *Outcome {
 			var cs grpc.ClientStream
 			cs, err = ch.NewStream(sctx, streamDescOf(kBidi), mBidi)
 			if err == nil {
+				if c.MutCaller && attached != nil {
+					// the call has started; the map is the caller's own again
+					attached["zz-late"] = []string{"added-after-the-call-started"}
+					for k := range attached {
+						if len(attached[k]) > 0 {
+							attached[k][0] = "changed-after-the-call-started"
+						}
+					}
+				}
 				cs.SendMsg(&pb.Message{Count: int32(level)})
 				cs.CloseSend()
 				for i := 0; i < 3; i++ {
@@ -259,7 +283,7 @@ func propC10(c c10Case) *Outcome {
 		if c.Mutate && !l.NoMD && len(l.OutMD) > 0 {
 			// the caller's own view must be intact after the call
 			again, _ := metadata.FromOutgoingContext(callerCtx[level])
-			if ok, why := mdContains(again, l.OutMD.MD()); !ok || len(again["zz-injected"]) != 0 {
+			if ok, why := mdContains(again, l.OutMD.MD()); (!ok && !c.MutCaller) || len(again["zz-injected"]) != 0 {
 				p.fault("level %d caller: outgoing metadata changed by the call: %s", level, why)
 			}
 		}
@@ -312,7 +336,7 @@ func propC10(c c10Case) *Outcome {
 }
 
 func genC10(t *rapid.T) c10Case {
-	c := c10Case{Interceptor: rapid.Bool().Draw(t, "interceptor"), Cancel: rapid.IntRange(0, 3).Draw(t, "cancel") == 0, Mutate: rapid.Bool().Draw(t, "mutate")}
+	c := c10Case{Interceptor: rapid.Bool().Draw(t, "interceptor"), Cancel: rapid.IntRange(0, 3).Draw(t, "cancel") == 0, Mutate: rapid.Bool().Draw(t, "mutate"), MutCaller: rapid.Bool().Draw(t, "mutcaller")}
 	if rapid.Bool().Draw(t, "deadline") {
 		c.DeadlineNs = int64(rapid.IntRange(1, 100).Draw(t, "dl-hours")) * int64(time.Hour)
 	}
